@@ -66,6 +66,7 @@ func main() {
 	verif := flag.String("verif", "/verif", "verif directory (evidence, known findings)")
 	replay := flag.String("replay", "", "replay file: re-run that rule and print its diagnostic")
 	list := flag.Bool("list", false, "list properties")
+	dumpFld := flag.Bool("dump-fields", false, "print the struct fields of the tree (regenerates tool/baseline_fields.txt)")
 	dumpF := flag.Bool("dump-funcs", false, "print the function list of the tree (regenerates tool/baseline_funcs.txt)")
 	dumpInl := flag.Bool("dump-inlined", false, "print the files of the inlined view (debugging)")
 	noEvidence := flag.Bool("no-evidence", false, "do not write evidence (used by self tests)")
@@ -124,7 +125,7 @@ func main() {
 		sort.Strings(ids)
 	} else if props[*prop] != nil {
 		ids = []string{*prop}
-	} else if *dumpF || *dumpInl {
+	} else if *dumpF || *dumpInl || *dumpFld {
 	} else {
 		fmt.Fprintf(os.Stderr, "unknown property %q\n", *prop)
 		os.Exit(2)
@@ -145,6 +146,12 @@ func main() {
 	loadS := time.Since(t0).Seconds()
 	if *dumpF {
 		for _, l := range dumpFuncs(p) {
+			fmt.Println(l)
+		}
+		return
+	}
+	if *dumpFld {
+		for _, l := range dumpFields(p) {
 			fmt.Println(l)
 		}
 		return
